@@ -489,7 +489,13 @@ impl EventParser {
 
         if let Some(event_name) = event_name {
             let payload_type = if let Some(payload_expr) = payload_expr {
-                self.infer_payload_type(payload_expr, symbols)
+                if self.is_untyped_variable(payload_expr, symbols) {
+                    // A variable without a known declared type (a pattern binding such as the `n`
+                    // of `if let Some(n) = ..`, a closure parameter) names no type
+                    "unknown".to_string()
+                } else {
+                    self.infer_payload_type(payload_expr, symbols)
+                }
             } else {
                 "()".to_string()
             };
@@ -504,6 +510,28 @@ impl EventParser {
                 file_path: file_path.to_string_lossy().to_string(),
                 line_number,
             });
+        }
+    }
+
+    /// Check if the payload is a plain variable (possibly borrowed or cloned) that the symbol
+    /// table does not know. Variables are lower-case by convention; an upper-case identifier
+    /// can be a unit struct or a constant
+    fn is_untyped_variable(&self, expr: &Expr, symbols: &SymbolTable) -> bool {
+        match expr {
+            Expr::Reference(expr_ref) => self.is_untyped_variable(&expr_ref.expr, symbols),
+            Expr::Paren(expr_paren) => self.is_untyped_variable(&expr_paren.expr, symbols),
+            Expr::MethodCall(method_call) if method_call.method == "clone" => {
+                self.is_untyped_variable(&method_call.receiver, symbols)
+            }
+            Expr::Path(path) => match path.path.get_ident() {
+                Some(ident) => {
+                    let name = ident.to_string();
+                    !symbols.contains_key(&name)
+                        && name.starts_with(|c: char| c.is_lowercase() || c == '_')
+                }
+                None => false,
+            },
+            _ => false,
         }
     }
 
